@@ -5,7 +5,7 @@ import glob, json, os, shutil
 import vlib
 
 KIND = {"tok": "UCAN token root block", "rcpt": "receipt root block / signed outcome bytes", "msg": "agent message root block",
-        "arch": "archive variant block", "car": "CAR framing of the recorded archive"}
+        "arch": "archive variant block", "car": "CAR framing of the recorded archive", "sign": "signing payload (DAG-JSON / JWT form)"}
 
 
 def check(run):
@@ -58,7 +58,7 @@ def check(run):
             cid_, code = item if isinstance(item, (list, tuple)) else (item, 1)
             run.violation("model:" + kind, "corpus case %s: recorded %s is not what the format model writes / reads" % (cid_, KIND.get(kind, kind)),
                           dict(case=cid_, kind=kind, code=code, case_file=f))
-    run.obligation("format model: Coq encoders (token, receipt, message, archive variant, CAR framing) reproduce the recorded bytes and decode them to the same values", ok)
+    run.obligation("format model: Coq encoders (token, signing payload, receipt, message, archive variant, CAR framing) reproduce the recorded bytes and decode them to the same values", ok)
     if not ok and not run.violations:
         run.violation("correspondence-broken", "case files could not be evaluated", dict(notes=run.notes), no_input=True)
     if not tie["ok"] and not run.violations:
@@ -77,8 +77,7 @@ def check(run):
                    samples=stats["samples"], by_kind=stats["by_kind"], model_cases=stats["model_cases"])
     run.assumptions += ["the corpus was captured from the pinned tree with the fix: commits of KNOWN_FINDINGS.txt (the pinned tree could not verify tokens with nonce / not-before, C07)",
                         "Ed25519 and RSA PKCS#1 v1.5 signing are deterministic (Go standard library)",
-                        "signing payload (DAG-JSON) bytes are compared with the recording, their model is DagJson.v (C07)",
-                        "SHA-256 / multibase string encodings are exercised, not modelled"]
+                        "SHA-256 is exercised, not modelled (links are compared as recorded); base encodings of CID / DID strings are modelled in BaseEnc.v / DagJson.v"]
 
 
 def replay(path):
